@@ -62,8 +62,8 @@ def relocation_oracle(sym, x, y, groups):
             for c, ext in fi.subinfo.extents.items():
                 if sum(ext.values()) != fi.chargemap[c]:
                     return {'error': 'extents of fused charge %r do not partition its size' % (c,)}
-                if list(ext) != sorted(ext) or len(set(ext)) != len(ext):
-                    return {'error': 'sub-sectors of fused charge %r not strictly sorted' % (c,)}
+                if len(set(ext)) != len(ext):
+                    return {'error': 'sub-sectors of fused charge %r are repeated' % (c,)}
     total_x = 0
     seen = {}
     for s, blk in x.blocks.items():
